@@ -56,12 +56,12 @@ def _is_deep_copy_of(e, src):
 
 def run(chk):
     prog = chk.prog
-    r1_evolve(chk)
-    r2_copy_branches(chk)
-    r3_state(chk)
-    r4_r5_derived(chk)
-    r6_ensemble_copy(chk)
-    r7_ctor_forwarding(chk)
+    chk.call(r1_evolve, chk)
+    chk.call(r2_copy_branches, chk)
+    chk.call(r3_state, chk)
+    chk.call(r4_r5_derived, chk)
+    chk.call(r6_ensemble_copy, chk)
+    chk.call(r7_ctor_forwarding, chk)
 
 
 def r1_evolve(chk):
